@@ -57,6 +57,7 @@ def run(repo, rep, tier):
               construct="table-entry-glued", detail="; ".join(
                   "%s:%d %s" % (g[0].relpath, g[1], g[2])
                   for g in glued_[:3]) or "%d word tables" % nt_)
+    L.state_rule(repo, rep)
 
 
 def _param_effects(f, params):
@@ -489,6 +490,39 @@ def _keyed(repo, rep):
               "converted first: the decoding of character entities and the "
               "validation see them like statements written with a prefix",
               construct="convert-first", where=L.where(ve))
+    # the statement name is everything after the second hyphen: several
+    # statements have a hyphen of their own (omit-tag, on-error, fill-slot,
+    # define-macro ...), so the name is split off with a bounded split
+    cd = repo.func(PROG + "convert_data_attributes")
+    splits = [n for n in ast.walk(cd.node) if isinstance(n, ast.Call)
+              and isinstance(n.func, ast.Attribute)
+              and n.func.attr in ("split", "partition", "rsplit",
+                                  "rpartition")
+              and n.args and isinstance(n.args[0], ast.Constant)
+              and n.args[0].value == "-"]
+    okb = bool(splits)
+    for n in splits:
+        if n.func.attr in ("rsplit", "rpartition"):
+            okb = False     # cuts at the LAST hyphen
+            continue
+        if n.func.attr == "partition":
+            continue
+        bound = n.args[1] if len(n.args) > 1 else next(
+            (k.value for k in n.keywords if k.arg == "maxsplit"), None)
+        stripped = "[5:]" in src(n.func.value).replace(" ", "") or any(
+            isinstance(a_, ast.Assign) and
+            src(a_.targets[0]) == src(n.func.value) and
+            "[5:]" in src(a_.value).replace(" ", "")
+            for a_ in ast.walk(cd.node))
+        want = 1 if stripped else 2
+        if not (isinstance(bound, ast.Constant) and bound.value == want):
+            okb = False
+    rep.check(okb, "R18.2", cd.qualname, "the name of a data-<prefix>-<name> "
+              "attribute is split at the hyphen after the prefix only: "
+              "statement names that contain a hyphen (omit-tag, on-error, "
+              "define-macro, fill-slot ...) stay whole",
+              construct="data-name-keeps-hyphens", where=L.where(cd),
+              detail="; ".join(src(n) for n in splits))
     arg3 = src(conv[0].args[2]) if conv and len(conv[0].args) > 2 else ""
     pt = repo.func(PARSER + "parse_tag")
     stores_map = any(isinstance(n, ast.Assign) and
